@@ -292,7 +292,7 @@ fn malformed(outer: &[usize], inner: &[usize], unknown_at: usize) {
             // operations on the restored session stay panic-free; the pending queue holds arbitrary
             // bytes here: Uplink::clear_mac_commands on arbitrary queues is covered by the harness
             // pending_any_bytes (symbolic CIDs make it too expensive to repeat in every script)
-            let region = region::Configuration::new(mc::rt::REGIONS[0]);
+            let region = region::Configuration::new(mc::rt::region_ut(0));
             let mut cfg = mc::any_configuration();
             kani::assume(mc::cfg_inv(&cfg, &region));
             let _ = t.rx2_complete(&mut cfg, &region);
